@@ -12,21 +12,12 @@ func verifKnownBinding(b string) bool {
 }
 
 // verifLocation returns a location text from the classes on which the abstract
-// url.Parse model is exact: an http://, https://, javascript: or data: prefix
+// url.Parse model is exact: a concrete scheme prefix (http, https, script-bearing and other schemes, one in mixed case)
 // followed by colon-free text, or colon-free text alone.
 func verifLocation(tag string) string {
 	rest := verifNondetStringNoColon(tag + ".rest")
-	switch verifChoose(tag+".class", 5) {
-	case 0:
-		return "http://" + rest
-	case 1:
-		return "https://" + rest
-	case 2:
-		return "javascript:" + rest
-	case 3:
-		return "data:" + rest
-	}
-	return rest
+	prefixes := []string{"http://", "https://", "javascript:", "data:", "JavaScript:", "vbscript:", "view-source:", "ftp://", "file:///", "intent://", ""}
+	return prefixes[verifChoose(tag+".class", len(prefixes))] + rest
 }
 
 func verifHTTPScheme(s string) bool {
